@@ -88,12 +88,12 @@ std::string run_query(const cctz::time_zone& tz, const Query& q) {
       break;
     }
     case Q_FORMAT: {
-      out = cctz::format(kFormats[q.fmt % kNumFormats], tp_of(q.a), tz);
+      out = cctz::format(q.fs.empty() ? std::string(kFormats[q.fmt % kNumFormats]) : q.fs, tp_of(q.a), tz);
       break;
     }
     case Q_PARSE: {
       cctz::time_point<cctz::seconds> tp;
-      bool ok = cctz::parse(kFormats[q.fmt % kNumFormats], q.s, tz, &tp);
+      bool ok = cctz::parse(q.fs.empty() ? std::string(kFormats[q.fmt % kNumFormats]) : q.fs, q.s, tz, &tp);
       snprintf(b, sizeof b, "%d %" PRId64, ok ? 1 : 0, ok ? secs(tp) : 0);
       out = b;
       break;
@@ -112,8 +112,8 @@ J query_to_json(const Query& q) {
   switch (q.k) {
     case Q_LOOKUP_TP: case Q_CONV_TP: case Q_NEXT: case Q_PREV: j.set("t", q.a); break;
     case Q_LOOKUP_CS: case Q_CONV_CS: j.set("y", q.a); j.set("mdhms", q.b); break;
-    case Q_FORMAT: j.set("t", q.a); j.set("fmt", q.fmt); break;
-    case Q_PARSE: j.set("in", q.s); j.set("fmt", q.fmt); break;
+    case Q_FORMAT: j.set("t", q.a); j.set("fmt", q.fmt); if (!q.fs.empty()) j.set("fstr", q.fs); break;
+    case Q_PARSE: j.set("in", q.s); j.set("fmt", q.fmt); if (!q.fs.empty()) j.set("fstr", q.fs); break;
     default: break;
   }
   return j;
@@ -126,6 +126,7 @@ Query query_from_json(const J& j) {
   if (j.has("y")) { q.a = j.geti("y"); q.b = j.geti("mdhms"); }
   q.fmt = static_cast<int>(j.geti("fmt"));
   q.s = j.gets("in");
+  q.fs = j.gets("fstr");
   return q;
 }
 std::string query_text(const Query& q) {
@@ -136,8 +137,10 @@ std::string query_text(const Query& q) {
       snprintf(b, sizeof b, "%s(%" PRId64 "-%02d-%02d %02d:%02d:%02d)", qkind_name(q.k), c.y, c.m, c.d, c.hh, c.mm, c.ss);
       return b;
     }
-    case Q_FORMAT: snprintf(b, sizeof b, "format(#%d,%" PRId64 ")", q.fmt, q.a); return b;
-    case Q_PARSE: return std::string("parse(#") + std::to_string(q.fmt) + ",'" + q.s + "')";
+    case Q_FORMAT:
+      if (!q.fs.empty()) return "format('" + q.fs + "'," + std::to_string(q.a) + ")";
+      snprintf(b, sizeof b, "format(#%d,%" PRId64 ")", q.fmt, q.a); return b;
+    case Q_PARSE: return std::string("parse(") + (q.fs.empty() ? "#" + std::to_string(q.fmt) : "'" + q.fs + "'") + ",'" + q.s + "')";
     case Q_DESC: case Q_VERSION: case Q_NAME: return std::string(qkind_name(q.k)) + "()";
     default: snprintf(b, sizeof b, "%s(%" PRId64 ")", qkind_name(q.k), q.a); return b;
   }
@@ -165,6 +168,74 @@ static Query civil_query(QKind k, int64_t local) {
   Civil c = civil_from_unix(local);
   Query q; q.k = k; q.a = c.y; q.b = pack_civil(c.m, c.d, c.hh, c.mm, c.ss);
   return q;
+}
+
+std::string gen_format(Rng* r) {
+  static const char* const plain[] = {"%Y", "%m", "%d", "%H", "%M", "%S", "%z", "%Z", "%s", "%a", "%A", "%b", "%B", "%c", "%C", "%D", "%e", "%F", "%g", "%G",
+                                      "%h", "%I", "%j", "%k", "%l", "%n", "%p", "%R", "%t", "%T", "%u", "%U", "%V", "%w", "%W", "%x", "%X", "%y", "%%", "%r", "%P"};
+  static const char* const ext[] = {"%Ez", "%E*z", "%E#S", "%E*S", "%E0S", "%E3S", "%E9S", "%E15S", "%E#f", "%E*f", "%E1f", "%E6f", "%E4Y", "%ET", "%Ec", "%EC", "%Ex", "%EX", "%Ey", "%EY",
+                                    "%Od", "%Oe", "%OH", "%OI", "%Om", "%OM", "%OS", "%Ou", "%OU", "%OV", "%Ow", "%OW", "%Oy", "%E", "%E*", "%Ez%Ez", "%:z", "%::z", "%:::z"};
+  static const char* const lit[] = {" ", "-", ":", "T", "/", ", ", "Z", "at ", "\xc3\xa9", "x%", "%", "[", "]"};
+  std::string f;
+  int n = static_cast<int>(r->pick(std::vector<int>{1, 2, 3, 5, 8, 12, 20, 40}));
+  bool long_run = r->chance(0.2);   // long runs of specifiers that are handed to strftime in one piece
+  for (int i = 0; i < n; ++i) {
+    uint64_t p = r->below(100);
+    if (long_run || p < 45) {
+      std::string t = plain[r->below(sizeof plain / sizeof *plain)];
+      if (r->chance(0.12) && t != "%%") {   // glibc flags and field widths: %_5d %-H %010Y %^a %99c
+        std::string mod;
+        if (r->chance(0.6)) mod += r->pick(std::vector<std::string>{"_", "-", "0", "^", "#"});
+        if (r->chance(0.7)) mod += std::to_string(r->pick(std::vector<int>{1, 2, 5, 10, 33, 99, 200, 1000}));
+        t = "%" + mod + t.substr(1);
+      }
+      f += t;
+      if (long_run && r->chance(0.5)) f += r->pick(std::vector<std::string>{" ", ", ", "-"});
+    } else if (p < 75) f += ext[r->below(sizeof ext / sizeof *ext)];
+    else f += lit[r->below(sizeof lit / sizeof *lit)];
+  }
+  return f;
+}
+
+// Parse formats whose input the generator can render itself from the civil fields.
+static void gen_parse(Rng* r, Query* q, int64_t t, int32_t off) {
+  int64_t local = (t > (1LL << 55) || t < -(1LL << 55)) ? 0 : t + off;
+  Civil c = civil_from_unix(local);
+  static const char* const wd[] = {"Thu", "Fri", "Sat", "Sun", "Mon", "Tue", "Wed"};
+  static const char* const mon[] = {"Jan", "Feb", "Mar", "Apr", "May", "Jun", "Jul", "Aug", "Sep", "Oct", "Nov", "Dec"};
+  int64_t days = local / 86400 - (local % 86400 < 0 ? 1 : 0);
+  const char* w = wd[((days % 7) + 7) % 7];
+  int ao = off < 0 ? -off : off;
+  char b[200];
+  q->k = Q_PARSE; q->fmt = 1;
+  switch (r->below(10)) {
+    case 0: case 1: case 2:
+      snprintf(b, sizeof b, "%" PRId64 "-%02d-%02d %02d:%02d:%02d", c.y, c.m, c.d, c.hh, c.mm, c.ss); break;
+    case 3:
+      q->fs = "%Y-%m-%dT%H:%M:%S%Ez";
+      snprintf(b, sizeof b, "%" PRId64 "-%02d-%02dT%02d:%02d:%02d%c%02d:%02d", c.y, c.m, c.d, c.hh, c.mm, c.ss, off < 0 ? '-' : '+', ao / 3600, (ao / 60) % 60); break;
+    case 4:
+      q->fs = "%d/%m/%Y %H.%M";
+      snprintf(b, sizeof b, "%02d/%02d/%" PRId64 " %02d.%02d", c.d, c.m, c.y, c.hh, c.mm); break;
+    case 5:
+      q->fs = "%s";
+      snprintf(b, sizeof b, "%" PRId64, t); break;
+    case 6:
+      q->fs = "%Y%m%d %H%M%E*S";
+      snprintf(b, sizeof b, "%" PRId64 "%02d%02d %02d%02d%02d.%d", c.y, c.m, c.d, c.hh, c.mm, c.ss, static_cast<int>(r->below(1000))); break;
+    case 7:
+      q->fs = "%a, %d %b %Y %H:%M:%S %z";
+      snprintf(b, sizeof b, "%s, %02d %s %" PRId64 " %02d:%02d:%02d %c%02d%02d", w, c.d, mon[c.m - 1], c.y, c.hh, c.mm, c.ss, off < 0 ? '-' : '+', ao / 3600, (ao / 60) % 60); break;
+    case 8:
+      q->fs = "%m/%d/%y %I:%M:%S %p";
+      snprintf(b, sizeof b, "%02d/%02d/%02d %02d:%02d:%02d %s", c.m, c.d, static_cast<int>(((c.y % 100) + 100) % 100), c.hh % 12 == 0 ? 12 : c.hh % 12, c.mm, c.ss, c.hh < 12 ? "AM" : "PM"); break;
+    default:
+      q->fs = "%E4Y-%m-%d %H:%M:%E3S %Z";
+      snprintf(b, sizeof b, "%04" PRId64 "-%02d-%02d %02d:%02d:%02d.250 UTC", c.y, c.m, c.d, c.hh, c.mm, c.ss); break;
+  }
+  q->s = b;
+  if (r->chance(0.1)) q->s += "x";  // rejected input
+  if (r->chance(0.03)) q->s = " " + q->s;
 }
 
 Query gen_query(Rng* r, const ZoneShape& sh, bool allow_meta) {
@@ -209,16 +280,11 @@ Query gen_query(Rng* r, const ZoneShape& sh, bool allow_meta) {
   }
   else if (kind < 63) { q.k = Q_NEXT; q.a = t; }
   else if (kind < 71) { q.k = Q_PREV; q.a = t; }
-  else if (kind < 80) { q.k = Q_FORMAT; q.a = t; q.fmt = static_cast<int>(r->below(static_cast<uint64_t>(kNumFormats))); }
-  else if (kind < 88) {
-    q.k = Q_PARSE; q.fmt = 1;
-    int64_t local = (t > (1LL << 55) || t < -(1LL << 55)) ? 0 : t + off;
-    Civil c = civil_from_unix(local);
-    char b[96];
-    snprintf(b, sizeof b, "%" PRId64 "-%02d-%02d %02d:%02d:%02d", c.y, c.m, c.d, c.hh, c.mm, c.ss);
-    q.s = b;
-    if (r->chance(0.1)) q.s += "x";  // rejected input
+  else if (kind < 80) {
+    q.k = Q_FORMAT; q.a = t; q.fmt = static_cast<int>(r->below(static_cast<uint64_t>(kNumFormats)));
+    if (r->chance(0.4)) q.fs = gen_format(r);
   }
+  else if (kind < 88) gen_parse(r, &q, t, off);
   else if (kind < 94) { q.k = Q_CONV_TP; q.a = t; }
   else if (kind < 100) {
     int64_t local = (t > INT64_MAX - 200000 || t < INT64_MIN + 200000) ? t : t + off;
